@@ -138,6 +138,29 @@ def push_invariant(ctx, crate):
             if last is not None and not all(feval(t, {last: lv, value: vv}, e) == bool(sub[t][2]) for t in cmps): continue
             if lv >= vv:
                 bad.append(("last %s value" % ("==" if lv == vv else ">"), {show(t)[:50]: bool(sub[t][2]) for t in cmps})); break
+    # the dual: a way through push that does NOT append the value drops it — allowed only for a duplicate of
+    # the last element of a NON-EMPTY buffer (forced `Some` outcome of `last()`, and tests that only the
+    # ordering last == value satisfies).  A default standing in for "no last element" (`unwrap_or(0)`) makes
+    # cell 0 pushed first disappear.
+    dropped = []; n_drop = 0
+    for sub, e, r in leaves:
+        if not r.returns: continue
+        pushes = [ev for ev in e.events.values() if ev.callee and strip_generics(ev.callee).endswith("Vec::push") and len(ev.site) == 2 and value in ev.args]
+        if pushes: continue
+        n_drop += 1
+        lasts = [ev for ev in e.events.values() if ev.callee and strip_generics(ev.callee).endswith("::last")]
+        nonempty = any(sub.get(('discr', ev.ret)) == C('isize', 1) for ev in lasts)
+        cmps = [t for t in sub if t[0] == 'op' and t[1] in ('eq', 'ne', 'lt', 'le', 'gt', 'ge') and value in (t[3], t[4])]
+        others = {t[3] if t[4] == value else t[4] for t in cmps}
+        only_eq = False
+        if len(others) == 1:
+            last = next(iter(others))
+            sat = [(lv, vv) for lv, vv in ((1, 2), (2, 2), (3, 2)) if all(feval(t, {last: lv, value: vv}, e) == bool(sub[t][2]) for t in cmps)]
+            only_eq = sat == [(2, 2)]
+        if not (nonempty and only_eq):
+            dropped.append("buffer known non-empty: %s; tests on that path %s" % (nonempty, {show(t)[:50]: bool(sub[t][2]) for t in cmps}))
+    ctx.report(clause, "push:drops-only-a-repeat-of-the-last-element", not dropped, "%d way(s) through push return without appending: each under `last() is Some(h)` and h == value" % n_drop if not dropped else
+               "push can return without appending the value although it is not a repeat of the last element of a non-empty buffer (%s): the pushed cell is lost" % dropped[0], at=b.span, kind="N")
     ctx.report(clause, "push:strictly-increasing-while-sorted", not bad and n_app >= 1,
                "%d ways through push append the value; wherever the flag stays true the tests passed imply last < value" % n_app if not bad else
                "push can append with %s while `sorted` stays true (tests on that path: %s): drain_buffer then skips sort + dedup and the duplicate becomes a cell" % bad[0], at=b.span, kind="N")
@@ -272,6 +295,30 @@ def pack_rule(ctx, crate):
         return False
     has0 = any(d[0] == 'op' and d[1] in ('eq', 'ne', 'gt', 'lt', 'ge', 'le') and ((depth_like(d[3]) and d[4] == C('u8', 0)) or (depth_like(d[4]) and d[3] == C('u8', 0)))
                for d, loc in e.branches if loc[0] == fn)
+    # whatever helpers exist: some branch of pack must read the flag bit of the *current* cell (the value whose
+    # depth is decoded), or compare that cell with a raw value built with flag = true — the three sibling
+    # probes say nothing about the first cell of the quadruple, and a partial first child merged with three
+    # full siblings comes out as a full parent
+    from sym import walk as _walk
+    cellv = {ev.args[0] for ev in e.events.values() if ev.callee and ev.callee.endswith("::get_depth") and ev.args}
+    grew = True
+    while grew:
+        grew = False
+        for ph, ops in list(e.phi_ops.items()):
+            if ph in cellv and not set(ops) <= cellv: cellv |= set(ops); grew = True
+            elif ph not in cellv and any(o in cellv for o in ops): cellv.add(ph); grew = True
+    brv_full = {ev.ret for ev in brv if ev.args[2] == C('bool', 1)}
+    def reads_flag(t):
+        if t[0] != 'op': return False
+        if t[1] == 'bitand':
+            for a_, c_ in ((t[3], t[4]), (t[4], t[3])):
+                if a_ in cellv and c_[0] == 'c' and c_[2] & 1 == 1 and c_[2] < 4: return True
+        if t[1] in ('eq', 'ne'):
+            return (t[3] in cellv and t[4] in brv_full) or (t[4] in cellv and t[3] in brv_full)
+        return False
+    flag_tests = [loc for d, loc in e.branches if any(reads_flag(x) for x in _walk(d))]
+    ctx.report(clause, "pack:group-starts-at-a-full-cell", bool(flag_tests), "the flag of the current cell is tested (%d branch%s)" % (len(flag_tests), "" if len(flag_tests) == 1 else "es") if flag_tests else
+               "no branch of pack reads the flag bit of the current cell: (partial, full, full, full) siblings are merged into a FULL parent", at=b.span, kind="N")
     # the two predicates of the skip loop, as functions: a cell may start a group only if it is full
     # (flag bit set) and is the first of its four siblings (two low bits of its hash clear)
     from bits import Bits, sym_bits
